@@ -22,6 +22,9 @@ type c06Req struct {
 
 type c06Case struct {
 	Conns [][]c06Req `json:"conns"`
+	// Drip: connection 0 sends request k+1 only after handler k has ENTERED (one
+	// write per request) instead of one write for the whole pipeline.
+	Drip bool `json:"drip,omitempty"`
 }
 
 const c06Stride = 1000000
@@ -59,7 +62,14 @@ func genC06(t *rapid.T) c06Case {
 			sizes[i] = rapid.IntRange(64, 256).Draw(t, "n-long")
 		}
 	}
-	mode := rapid.SampledFrom([]string{"random", "random", "reversed-chain", "cross"}).Draw(t, "mode")
+	mode := rapid.SampledFrom([]string{"random", "random", "reversed-chain", "cross", "deep-chain"}).Draw(t, "mode")
+	if mode == "deep-chain" {
+		// one long connection whose every handler waits for its successor: up to
+		// 255 handlers of one connection are blocked at the same time
+		sizes[0] = rapid.IntRange(100, 256).Draw(t, "deep-n")
+		mode = "reversed-chain"
+	}
+	c.Drip = rapid.IntRange(0, 3).Draw(t, "drip") == 0
 	for ci := 0; ci < nc; ci++ {
 		n := sizes[ci]
 		perm := rapid.Permutation(seqInts(n)).Draw(t, "perm")
@@ -98,6 +108,16 @@ func genC06(t *rapid.T) c06Case {
 		c.Conns = append(c.Conns, reqs)
 	}
 	return c
+}
+
+func longest(c c06Case) int {
+	m := 0
+	for _, r := range c.Conns {
+		if len(r) > m {
+			m = len(r)
+		}
+	}
+	return m
 }
 
 func seqInts(n int) []int {
@@ -187,13 +207,28 @@ func c06Exec(c c06Case, st *lab.Stats) *lab.Fail {
 			return nil
 		}
 		clients[ci] = cl
+		if c.Drip && ci == 0 {
+			go func(cl *lab.Client, reqs []c06Req) {
+				for k, q := range reqs {
+					if cl.Send(c06ReqSpec(q).Bytes()) != nil {
+						return
+					}
+					select {
+					case <-entered[0][k]:
+					case <-release:
+						return
+					}
+				}
+			}(cl, reqs)
+			continue
+		}
 		var buf []byte
 		for _, q := range reqs {
 			buf = append(buf, c06ReqSpec(q).Bytes()...)
 		}
 		go func(cl *lab.Client, buf []byte) { _ = cl.Send(buf) }(cl, buf)
 	}
-	st.Case(total >= 2 && edges >= 1, lab.JSONKey(c), fmt.Sprintf("conns=%d", len(c.Conns)), fmt.Sprintf("requests<=%d", bucket(total)), fmt.Sprintf("edges>0=%v", edges > 0))
+	st.Case(total >= 2 && edges >= 1, lab.JSONKey(c), fmt.Sprintf("conns=%d", len(c.Conns)), fmt.Sprintf("requests<=%d", bucket(total)), fmt.Sprintf("edges>0=%v", edges > 0), fmt.Sprintf("drip=%v", c.Drip), fmt.Sprintf("longest>=129:%v", longest(c) >= 129))
 	if st.WantSample() {
 		st.Sample(map[string]interface{}{"conns": len(c.Conns), "requests": total, "blocking_edges": edges, "first_conn": c.Conns[0][:min(len(c.Conns[0]), 6)]})
 	}
@@ -259,7 +294,7 @@ func c06Exec(c c06Case, st *lab.Stats) *lab.Fail {
 func TestC06(t *testing.T) {
 	lab.Prop[c06Case]{
 		ID: "C06", Part: "pipelines",
-		Rule: "rapid: 1..8 simultaneous connections, each pipelining 1..24 (occasionally 64..256) requests of mixed operations with shuffled message IDs in one write; a generated dependency graph makes handlers block until a LATER request of the same connection (random, or the fully reversed chain) or any request of another connection has ENTERED its handler; oracle = every handler enters (a correct dispatcher always completes, a serial one deadlocks: verdict only with a stable goroutine census after 15 s), Request.ID of the k-th request sent is k, one ConnectionID per connection, distinct across connections; non-trivial = >= 2 requests and >= 1 blocking edge; distinct by hash of the case",
+		Rule: "rapid: 1..8 simultaneous connections, each pipelining 1..24 (occasionally 64..256; 'deep-chain' cases 100..256) requests of mixed operations with shuffled message IDs, in one write or drip-fed one write per request after the previous handler has entered; a generated dependency graph makes handlers block until a LATER request of the same connection (random, or the fully reversed chain) or any request of another connection has ENTERED its handler; oracle = every handler enters (a correct dispatcher always completes, a serial one deadlocks: verdict only with a stable goroutine census after 15 s), Request.ID of the k-th request sent is k, one ConnectionID per connection, distinct across connections; non-trivial = >= 2 requests and >= 1 blocking edge; distinct by hash of the case",
 		Gen:  genC06, Exec: c06Exec,
 	}.Run(t)
 }
